@@ -134,6 +134,8 @@ type streamSpec struct {
 	Gate   int    `json:"gate"`   // -1 none; else: bytes from this offset on are released only after this endpoint was half-closed
 	//                               (or, when its wrapping makes the half-close invisible, after the peer reported its end)
 	Wrap int `json:"wrap"` // how the endpoint is handed to the relay, see wrapEndpoint
+	WFailAt     int  `json:"wfailat"`      // index of the Write that fails consuming nothing (0 = none; k>0: the k-th Write)
+	WFailSticky bool `json:"wfailsticky"`  // ... and every later Write too
 	Lax  bool `json:"lax"` // false: the endpoint ENFORCES its half-close (a Write after CloseWrite fails with io.ErrClosedPipe)
 	IdleS int `json:"idle_s"` // gated endpoints: logical seconds the peer stays silent after the half-close before it goes on
 	Empties []bool `json:"empties"` // Empties[i]: the i-th Read call returns (0, nil) — allowed by io.Reader — and consumes nothing
@@ -169,6 +171,10 @@ type streamFake struct {
 	deadline     time.Time     // read deadline armed through SetReadDeadline (net.Conn semantics, absolute)
 	deadlineSets int
 	deadlineHits int
+	wfailAt      int
+	wfailSticky  bool
+	wcalls       int
+	wfailed      int
 	lax          bool
 	empties      []bool
 	readIdx      int
@@ -201,7 +207,7 @@ func (f *streamFake) markEnded() {
 
 func newStreamFake(name string, s streamSpec, log *evlog, spin chan string) *streamFake {
 	f := &streamFake{name: name, log: log, spin: spin, data: unhx(s.Data), cuts: append([]int(nil), s.Cuts...),
-		end: s.End, wd: s.WD, gate: s.Gate, wlimit: s.WLimit, wkind: s.WKind, lax: s.Lax, empties: s.Empties,
+		end: s.End, wd: s.WD, gate: s.Gate, wlimit: s.WLimit, wkind: s.WKind, lax: s.Lax, empties: s.Empties, wfailAt: s.WFailAt, wfailSticky: s.WFailSticky,
 		idle: time.Duration(s.IdleS) * time.Second}
 	f.cond = sync.NewCond(&f.mu)
 	return f
@@ -318,6 +324,11 @@ func (f *streamFake) Write(p []byte) (int, error) {
 	if !f.lax && f.cw > 0 {
 		f.writeAfterCW++
 		return 0, io.ErrClosedPipe // the write side has been shut down
+	}
+	f.wcalls++
+	if f.wfailAt > 0 && (f.wcalls == f.wfailAt || (f.wfailSticky && f.wcalls > f.wfailAt)) {
+		f.wfailed++
+		return 0, errWrite // the transport refuses this Write; nothing was consumed
 	}
 	f.writes++
 	if f.wlimit >= 0 && len(f.written)+len(p) > f.wlimit {
@@ -476,6 +487,12 @@ func (f *dgramFake) Read(p []byte) (int, error) {
 	}
 	if len(f.in) == 0 {
 		e := f.end
+		if f.pauseAt == 0 {
+			f.pauseAt--
+			f.mu.Unlock()
+			time.Sleep(45 * time.Millisecond) // the local side goes quiet before it ends: timed flushes happen meanwhile
+			f.mu.Lock()
+		}
 		f.readsAfter++
 		ra := f.readsAfter
 		f.mu.Unlock()
@@ -567,6 +584,7 @@ type udpObs struct {
 	ReadsAfterEnd int  `json:"reads_after_end"`
 	WriteAfterCW  int  `json:"write_after_half_close"`
 	TunnelWriteFault bool `json:"tunnel_write_fault,omitempty"`
+	WritesRefused    int  `json:"tunnel_writes_refused,omitempty"`
 }
 
 const watchdog = 20 * time.Second // fallback only; a spin is detected by the fake without a clock
@@ -607,7 +625,8 @@ func runUDP(dgrams [][]byte, uend, pauseAt, uwfail int, tun streamSpec, big bool
 	o.IOAfterCl = t.ioAfterClos + u.ioAfterC
 	o.ReadsAfterEnd = t.readsAfter
 	o.WriteAfterCW = t.writeAfterCW
-	o.TunnelWriteFault = tun.WLimit >= 0
+	o.TunnelWriteFault = tun.WLimit >= 0 || tun.WFailAt > 0
+	o.WritesRefused = t.wfailed
 	u.mu.Unlock()
 	t.mu.Unlock()
 	if res != nil {
@@ -637,6 +656,7 @@ type caseOut struct {
 	TR      *tcpRealObs `json:"tr,omitempty"` // tcpreal mode
 	TP      *tunPeerObs `json:"tp,omitempty"` // tunpeer mode
 	PP      *poolObs    `json:"pp,omitempty"` // poolprobe mode
+	MH      *mhObs      `json:"mh,omitempty"` // maphandle mode
 	TK      *trickleObs `json:"tk,omitempty"` // udptrickle mode
 }
 
@@ -750,7 +770,12 @@ func runUDPCase(c *caseIn, out *caseOut) {
 			return
 		}
 		// UDP -> tunnel: the tunnel receives exactly the length-prefixed records of the datagrams, in order
-		if c.Tunnel.WLimit < 0 {
+		if c.Tunnel.WFailAt > 0 && c.Tunnel.WFailSticky && o.WritesRefused > 0 && o.SendErr == 0 {
+			out.fail("udp-tunnel-write-failure-unreported", "udp: the tunnel refused %d Writes (every Write from the %d-th on) while datagrams were batched, yet SendError is nil and the datagrams are gone", o.WritesRefused, c.Tunnel.WFailAt)
+		}
+		// a transient refusal that happened to hit the FINAL flush (no tick fired during the pause) is legitimately reported
+		// through SendError; only a refusal absorbed silently (SendError nil) obliges the relay to deliver everything
+		if c.Tunnel.WLimit < 0 && !(c.Tunnel.WFailAt > 0 && (c.Tunnel.WFailSticky || o.SendErr != 0)) {
 			if want := refEncode(ds); string(tw) != string(want) {
 				out.fail("udp-encode", "udp: tunnel received %d bytes, expected the %d-byte length-prefixed encoding of the %d datagrams", len(tw), len(want), len(ds))
 			}
@@ -988,6 +1013,8 @@ func runCase(raw json.RawMessage) interface{} {
 		runTCPRealCase(&c, out)
 	case "tunpeer":
 		runTunPeerCase(&c, out)
+	case "maphandle":
+		runMapHandleCase(&c, out)
 	case "poolprobe":
 		runPoolProbeCase(&c, out)
 	case "udptrickle":
